@@ -280,9 +280,10 @@ def obligations(tier):
                                 bounds='kind %s: every length 0..%d, two alternating element slots over the %d-entry menu, None at odd positions on/off, name %r, preview limit %d via set_repr_rows'
                                 % (kind, limit + 3, len(KINDS[kind]), NAMEMENU[namei], limit), smoke=[[0, 1, 2, 3, False, namei], [1, 2, 3, limit + 2, True, namei]]))
     for limit in ([12, 4, 5] if q else [12, 2, 3, 4, 5, 6, 7, 8, 14]):
-        obs.append(dict(name='table[limit=%d,W=0..4]' % limit, fn='h_table', config={'limit': limit, 'wlo': 0, 'whi': 4}, budget=120 if q else 400,
-                        bounds='rows 0..%d, columns 0..4, limit %d set globally or per table, homogeneous / mixed dtypes, 3 name patterns, a None in column 0/1/2 or none' % (limit + 3, limit),
-                        smoke=[[3, 2, False, 0, 0, -1], [limit + 2, 3, True, 1, 2, 1]]))
+        for (wlo, whi) in ((0, 2), (3, 3), (4, 4)):
+            obs.append(dict(name='table[limit=%d,W=%d..%d]' % (limit, wlo, whi), fn='h_table', config={'limit': limit, 'wlo': wlo, 'whi': whi}, budget=120 if q else 400,
+                            bounds='rows 0..%d, columns %d..%d, limit %d set globally (then changed and re-checked on the same object) or per table, homogeneous / mixed dtypes, 3 name patterns, a None in column 0/1/2 or none'
+                            % (limit + 3, wlo, whi, limit), smoke=[[3, whi, False, 0, 0, -1], [limit + 2, whi, True, 1, 2, 1]]))
     for (lo, hi) in ((9, 12),):
         obs.append(dict(name='wide[W=%d..%d]' % (lo, hi), fn='h_table', config={'limit': 4, 'wlo': lo, 'whi': hi}, budget=150 if q else 400,
                         bounds='columns %d..%d (around the column limit of 10): ellipsis column only when truncated, footer dtypes head + ... + tail' % (lo, hi),
